@@ -42,11 +42,29 @@ def plan_first_round(tier, seed, pid):
 _PID = ["C08"]
 
 
+def outdoor_under_greenhouses_first_round(iso, opts, tag, c, tc, out_list):
+    """C08 extra (kept here so that the shared engine file stays as it is): with cropland under greenhouses the documented
+    function of the outdoor-crop series includes the reduction by the reference greenhouse share; the series handed to the
+    optimiser must equal it (the clauses about the interplay itself remain C09's)."""
+    n = c["NMONTHS"]
+    area, total = supplies.ref_greenhouse_area(c, n)
+    frac = [a / total if total else 0.0 for a in area]
+    if max(frac) == 0:
+        return
+    key = {"iso3": iso, "deviation": tag or "default", "NMONTHS": n, "preset": opts.get("_preset", "")}
+    rp = {"kind": "first_round", "iso3": iso, "opts": {k: v for k, v in opts.items()}}
+    supplies.cmp_series("outdoor_crops", tc["outdoor_crops"].production.kcals, supplies.ref_outdoor(c, n, frac), n, out_list, key, rp,
+                        clause="series_outdoor_crops_under_greenhouses")
+
+
 def job_first_round(job):
     iso, pn, tag, opts = job
     pid = _PID[0]
     try:
-        vs, c, tc, out = supplies.check_first_round(iso, options.clean(opts) | {"_preset": pn}, want=(pid,), tag=tag)
+        o = options.clean(opts) | {"_preset": pn}
+        vs, c, tc, out = supplies.check_first_round(iso, o, want=(pid,), tag=tag)
+        if pid == "C08":
+            outdoor_under_greenhouses_first_round(iso, o, tag, c, tc, vs[pid])
     except Exception as e:
         import traceback
         return {"error": "%s %s %s: %r %s" % (iso, pn, tag, e, traceback.format_exc()[-400:])}
@@ -178,6 +196,14 @@ def direct_cases(tier, pid):
         yield ("grass:%s:b%s:h%d" % (rn, b, h), c, t0, ("grass",), False)
 
 
+def outdoor_under_greenhouses_direct(c, t, label, got, out_list):
+    ref = supplies.reference_from_constants(c, t)
+    if max(ref["greenhouse_area"]) > 0:
+        rp = {"kind": "direct", "label": label, "constants": c, "time": {"FISH_PERCENT_MONTHLY": list(map(float, t["FISH_PERCENT_MONTHLY"]))}}
+        supplies.cmp_series("outdoor_crops", got["outdoor_crops"], ref["outdoor_crops"], c["NMONTHS"], out_list, {"direct": label}, rp,
+                            clause="series_outdoor_crops_under_greenhouses")
+
+
 def job_direct(chunk):
     pid = _PID[0]
     out = {"v": [], "n": 0, "states": 0, "rejected": 0, "digests": set()}
@@ -186,6 +212,8 @@ def job_direct(chunk):
         if got is None:
             out["rejected"] += 1
             continue
+        if pid == "C08" and "outdoor_crops" in names:
+            outdoor_under_greenhouses_direct(c, t, label, got, vs[pid])
         out["n"] += 1
         out["states"] += sum(len(got[nm]) for nm in names)
         out["digests"].add(common.digest([supplies._S["np"].round(got[nm], 6).tolist() for nm in names]))
@@ -238,16 +266,20 @@ def run(tier, seed):
         raise RuntimeError("first-round executions raised: %s" % errors[:2])
     return {"coverage": cov, "violations": vs,
             "assumptions": ["the constants dictionary produced by the option dispatcher is the input (C13 covers the dispatcher)",
-                            "outdoor crop values under greenhouses are judged by C09, not here"]}
+                            "with cropland under greenhouses the outdoor-crop series must equal the documented function including the reduction by the reference greenhouse share (clause series_outdoor_crops_under_greenhouses); the clauses about the interplay itself are C09's"]}
 
 
 def replay(rp, pid="C08"):
     supplies.init()
     if rp["kind"] == "first_round":
-        vs, _, _, _ = supplies.check_first_round(rp["iso3"], rp["opts"], want=(pid,))
+        vs, c, tc, _ = supplies.check_first_round(rp["iso3"], rp["opts"], want=(pid,))
+        if pid == "C08":
+            outdoor_under_greenhouses_first_round(rp["iso3"], rp["opts"], None, c, tc, vs[pid])
         return vs[pid]
     c = rp["constants"]
     np = supplies._S["np"]
     t = {"FISH_PERCENT_MONTHLY": np.array(rp["time"]["FISH_PERCENT_MONTHLY"])}
-    vs, _, _ = supplies.check_direct(c, t, rp["label"], want=(pid,), scaling=True)
+    vs, got, _ = supplies.check_direct(c, t, rp["label"], want=(pid,), scaling=True)
+    if pid == "C08" and got is not None and "outdoor_crops" in got:
+        outdoor_under_greenhouses_direct(c, t, rp["label"], got, vs[pid])
     return vs[pid]
